@@ -158,6 +158,9 @@ pub fn run_case(v: &Value) -> Value {
     let mut warns = vec![];
     let mut traces = vec![];
     let mut sources: Vec<(String, String)> = vec![];
+    // "incrgroups": a bundle assembled from per-file objects, each generated right after its file was added
+    let want_incr = want(v, "incrgroups");
+    let mut incr: Vec<(String, String)> = vec![];
     let want_trace = want(v, "trace");
     // calls on the binding-map collectors of this case (second pass of the parser and list_fields at emission)
     let want_bm = want(v, "bmtrace");
@@ -187,6 +190,16 @@ pub fn run_case(v: &Value) -> Value {
                 }
                 sources.retain(|(p, _)| p != &op[1]);
                 sources.push((op[1].clone(), op[2].clone()));
+                if want_incr && sub.is_none() {
+                    // the object of this file, generated NOW - while later files are not in the group yet
+                    let p = op[1].clone();
+                    if let Some(r) = guarded("incr:get_tmpl_gen_object", &mut panics, || group.get_tmpl_gen_object(&p)) {
+                        if let Ok(code) = r {
+                            incr.retain(|(q, _)| q != &p);
+                            incr.push((p, code));
+                        }
+                    }
+                }
             }
             "add_script" => {
                 g.add_script(&op[1], &op[2]);
@@ -293,6 +306,17 @@ pub fn run_case(v: &Value) -> Value {
         }) {
             res.insert("groups".into(), res_str(r));
         }
+    }
+
+    if want_incr {
+        let mut b = String::from("(function(){var G={};var R={};");
+        b.push_str(&group.get_runtime_string());
+        b.push(';');
+        for (p, code) in incr.iter() {
+            b.push_str(&format!("G[{}]={};", serde_json::to_string(p).unwrap(), code));
+        }
+        b.push_str("return G})()");
+        res.insert("incrgroups".into(), json!(b));
     }
 
     if want(v, "deps") {
